@@ -19,6 +19,7 @@
    [ins_rows blk l l'] : l' is l with the block blk inserted, all else in place. *)
 From Coq Require Import List ZArith Bool Arith Lia Permutation.
 From NT Require Import Sx Rose Surgery SurgeryFacts Machine WF MachineFacts Effects FrameTrees CopyFacts CopyMulti CopyWF CopyLocal CopySame.
+From NTGen Require Import Generated.
 Import ListNotations.
 
 (* ---- the recursive copy (Node._add_from) ---- *)
@@ -63,6 +64,12 @@ Theorem C07_strip_eq_spelled : forall kk a b, strip_ids kk a = strip_ids kk b ->
   shape a = shape b /\ size a = size b.
 Proof. exact strip_eq_spelled. Qed.
 Print Assumptions C07_strip_eq_spelled.
+
+(* ---- tie to the source: the default kind is the value read from typed_tree.py on every run ---- *)
+Theorem C07_default_kind_generated : forall t k,
+  default_kind t k = if typed t then Some (match k with Some x => x | None => DEFAULT_CHILD_TYPE end) else None.
+Proof. intros t [x|]; unfold default_kind; destruct (typed t); reflexivity. Qed.
+Print Assumptions C07_default_kind_generated.
 
 (* ---- add_child(node) shallow/deep, copy_to(add_self=True), every `before` ---- *)
 Theorem C07_add_node : forall w ti p sti src e k b deep r w',
